@@ -277,12 +277,14 @@ func (st *ex6State) op(kind string, fn func(o *ex6Op)) *ex6Op {
 func (st *ex6State) workload(cl *nclient6.Client, w int) {
 	t := st.tape
 	ctx := context.Background()
+	// phase of the wall clock: some exchanges start just before a whole second
+	sleep(pick(t, 0, 0, 0, ms(995), ms(999), ms(1000)-st.T/2), siteEx6Main)
 	if w == 0 {
 		a := st.op("solicit", func(o *ex6Op) { o.ret, o.err = cl.Solicit(ctx, st.mods()...) })
 		if a.err != nil || a.ret == nil {
 			return
 		}
-		sleep(pick(t, 0, 0, ms(1), st.T/2), siteEx6Main)
+		sleep(pick(t, 0, 0, ms(1), st.T/2, ms(1100)), siteEx6Main) // ms(1100): the application pauses across a wall-clock second
 		st.op("request", func(o *ex6Op) {
 			o.adv = a.ret
 			o.ret, o.err = cl.Request(ctx, a.ret, st.mods()...)
